@@ -633,7 +633,7 @@ func (ev *evaluator) callExpr(n *ast.CallExpr) *Val {
 			}
 			sub.lets[name] = &Val{T: bv, Typ: intT}
 			body := sub.ev(n.Args[3])
-			res := ev.x.sumTerm(ev.st, bv, body.T, lo.T, hi.T)
+			res := ev.x.sumTermSrc(ev.st, bv, body.T, lo.T, hi.T, fmt.Sprintf("%s@%d", ev.specName, n.Pos()))
 			if len(actual) > 0 {
 				res = substTerm(res, actual)
 				ev.x.unfoldSum(ev.st, res)
